@@ -284,6 +284,25 @@ def _full_batches(ctx, app):
                    'batch_size)')
 
 
+def _nothing_kept(ctx, app):
+    """C18.2: what an archiving run selects is judged on what the store
+    holds now: the archivers keep nothing between runs (a finished record is
+    rewritten for every terminal event of its instance; an age remembered
+    from an earlier run archives a record that was just rewritten)."""
+    srv = ctx.index.module(SRV)
+    for mod, names in ((app, ('cleanup_trace', 'cleanup_finished')),
+                       (srv, ('cleanup_server_trace',))):
+        for name in names:
+            func = mod.functions.get(name)
+            if func is None:
+                continue
+            kept = K.kept_between_calls(mod, func)
+            ctx.ob('C18.2', func, kept[0] if kept else None, not kept,
+                   '%s reads every node it judges in this run (nothing is '
+                   'kept in module-level state between runs)' % name,
+                   construct='%s keeps nothing between runs' % name)
+
+
 def _oldest_first(ctx):
     """C18.3: the server-trace archiver takes the oldest events first: the
     batch is the head of a merge by timestamp, and a merge orders nothing by
@@ -628,6 +647,7 @@ def check(ctx):
     app = _selection(ctx)
     _full_batches(ctx, app)
     _oldest_first(ctx)
+    _nothing_kept(ctx, app)
     _keep_newest(ctx, mod)
     _schema(ctx, mod, up, app)
     _callers_and_readers(ctx, app)
